@@ -46,6 +46,16 @@ def readAll (bufsz : Nat) : Nat → Str → List Resp
     | none => []
     | some (r, s') => r :: readAll bufsz k s'
 
+/-- exactly `k` calls whatever they return, as the harness op `resp` makes them: what each call returned (`true` = 0,
+`false` = -1: fatal record or nothing to read) and the bytes left unread -/
+def callN (bufsz : Nat) : Nat → Str → List Bool × Str
+  | 0, s => ([], s)
+  | k + 1, s =>
+    match response bufsz s with
+    | none => (false :: (callN bufsz k s).1, (callN bufsz k s).2)
+    | some (.fatal _, s') => (false :: (callN bufsz k s').1, (callN bufsz k s').2)
+    | some (_, s') => (true :: (callN bufsz k s').1, (callN bufsz k s').2)
+
 /-- the receiver's side of the wire: `none` = positive reply, `some msg` = `_error` with the text `msg` (the format
 strings of pcp_server.c all end in one newline, which is not part of `msg`) -/
 def wireReply : Option Str → Str
